@@ -167,6 +167,9 @@ def reach_paths(x, prefix='', out=None, seen_stack=()):
   elif isinstance(x, (list, tuple)):
     for i, v in enumerate(x):
       reach_paths(v, prefix + f'[{i}]', out, st)
+  elif type(x).__name__ == 'Table' and hasattr(x, 'd'):
+    for i, kv in enumerate(x.d.items()):   # the family's node type with temporary (key, value) children
+      reach_paths(kv, prefix + f'[{i}]', out, st)
   elif type(x).__name__ == 'Box' and hasattr(x, 'items'):
     for i, v in enumerate(x.items):      # the family's user-registered node type
       reach_paths(v, prefix + f'[{i}]', out, st)
